@@ -457,18 +457,38 @@ func (m *MonSwaps) matchRequests(s *Sim, eb *ExecBlock, swaps []*swapEvt) {
 		add(e.recipient, e.out.Denom, e.out.Amount.Add(e.bonus))
 		involved[e.recipient] = true
 	}
+	// amm counterparties: pool addresses and pool rebalance treasuries
+	ammAddr := map[string]bool{}
+	for _, p := range s.Snap().Pools {
+		ammAddr[p.Address] = true
+		ammAddr[p.RebalanceTreasury] = true
+	}
 	for a := range involved {
 		if s.W.ByAddr[a] == nil {
 			continue // module / escrow addresses have other end-block flows
 		}
-		denoms := map[string]bool{}
+		// net end-block flow between this account and the amm (other modules, e.g. distribution
+		// paying staking rewards in the staking end blocker, are not swap settlements)
+		got := map[string]sdkmath.Int{}
 		for i := range s.Ledger.Moves {
 			mv := &s.Ledger.Moves[i]
-			if mv.Phase == "end" && mv.Addr == a && (mv.Kind == "spent" || mv.Kind == "received") {
+			if mv.Phase != "end" || mv.Kind != "transfer" {
+				continue
+			}
+			if mv.Addr == a && ammAddr[mv.From] {
 				for _, c := range mv.Coins {
-					denoms[c.Denom] = true
+					got[c.Denom] = zeroIfNil(got, c.Denom).Add(c.Amount)
 				}
 			}
+			if mv.From == a && ammAddr[mv.Addr] {
+				for _, c := range mv.Coins {
+					got[c.Denom] = zeroIfNil(got, c.Denom).Sub(c.Amount)
+				}
+			}
+		}
+		denoms := map[string]bool{}
+		for d := range got {
+			denoms[d] = true
 		}
 		for k := range want {
 			if k.addr == a {
@@ -476,13 +496,13 @@ func (m *MonSwaps) matchRequests(s *Sim, eb *ExecBlock, swaps []*swapEvt) {
 			}
 		}
 		for d := range denoms {
-			got := s.Ledger.NetDelta(a, d, selPhase("end"))
+			g := zeroIfNil(got, d)
 			w, ok := want[key{a, d}]
 			if !ok {
 				w = sdkmath.ZeroInt()
 			}
-			if !got.Equal(w) {
-				s.Violate("C04", "balance_change_not_explained", culprit, "height %d: end-of-block balance change of %s in %s is %s, the matched swap settlements explain %s", eb.Height, shortAddr(a), d, got, w)
+			if !g.Equal(w) {
+				s.Violate("C04", "balance_change_not_explained", culprit, "height %d: end-of-block flow between %s and the amm in %s is %s, the matched swap settlements explain %s", eb.Height, shortAddr(a), d, g, w)
 			}
 		}
 	}
